@@ -15,7 +15,7 @@ import numpy as np
 import finam as fm
 from finam.adapters import LinearTime, NextTime, PreviousTime, Scale, StepTime
 
-from .. import slots
+from .. import harness, slots
 from ..model_slots import History
 from ..runner import Outcome, Property
 
@@ -46,10 +46,12 @@ def install_invariant():
 
 def mk_adapter(kind):
     return {"scale": lambda: Scale(1.0), "probe": lambda: fm.adapters.CallbackProbe(lambda d, t: None),
-            "next": NextTime, "prev": PreviousTime, "linear": LinearTime, "step": lambda: StepTime(0.5)}[kind]()
+            "next": NextTime, "prev": PreviousTime, "linear": LinearTime, "step": lambda: StepTime(0.5), "hold": harness.UserHold}[kind]()
 
 
-PUSH_BASED = ("next", "prev", "linear", "step")
+# "hold": a user-defined push-based adapter (fetches at every notification, hands out the last data fetched); unlike the
+# shipped time adapters it may fan out to several consumers
+PUSH_BASED = ("next", "prev", "linear", "step", "hold")
 
 
 class C09(Property):
@@ -58,7 +60,7 @@ class C09(Property):
     technique = "differential monitor against an unlimited-history model on recorded push/pull interleavings; retained-length bound checked after every event; icontract class invariant on Output"
     rule = (
         "interleavings of publications (increasing times, random gaps) and pulls by 1-4 consumers with non-decreasing request times each, "
-        "consumers direct / behind 1-2 pass-through adapters / behind one push-based time adapter (next, previous, linear, step), long "
+        "consumers direct / behind 1-2 pass-through adapters / behind one push-based time adapter (next, previous, linear, step) or a user-defined push-based adapter that fans out, long "
         "histories up to 400 events (quick) / 3000 (thorough); non-trivial = >=2 end points with diverging request times and >=1 eviction "
         "observed; distinct by (topology, event pattern hash)"
     )
@@ -91,11 +93,16 @@ class C09(Property):
                                       branch_ok=(parent < 0 or nodes[parent]["branch_ok"])))
                     parent = len(nodes) - 1
             else:
-                if rnd.random() < 0.3:
-                    nodes.append(dict(kind="scale", parent=parent, d=0, branch_ok=True))
+                holds = [j for j, nd in enumerate(nodes) if nd["kind"] == "hold"]
+                if holds and rnd.random() < 0.5:
+                    parent = rnd.choice(holds)  # a second consumer below an existing user-defined push-based adapter
+                else:
+                    if rnd.random() < 0.3:
+                        nodes.append(dict(kind="scale", parent=parent, d=0, branch_ok=True))
+                        parent = len(nodes) - 1
+                    kind = rnd.choice(PUSH_BASED)
+                    nodes.append(dict(kind=kind, parent=parent, d=0, branch_ok=False))
                     parent = len(nodes) - 1
-                nodes.append(dict(kind=rnd.choice(PUSH_BASED), parent=parent, d=0, branch_ok=False))
-                parent = len(nodes) - 1
                 if rnd.random() < 0.4:
                     kind = rnd.choice(["scale", "dfix"])
                     nodes.append(dict(kind=kind, parent=parent, d=rnd.choice([0, 1, 3]) if kind == "dfix" else 0, branch_ok=False))
@@ -236,7 +243,9 @@ class C09(Property):
                     ok = val in acc
                     exp = sorted(acc)
                 else:
-                    if pb[c] == "next":
+                    if pb[c] == "hold":
+                        e = hist.v[-1]  # whatever was published last
+                    elif pb[c] == "next":
                         e = hist.next_value(tq)
                     elif pb[c] == "prev":
                         e = hist.prev_value(tq)
